@@ -1,7 +1,8 @@
 // h_register drives the real plugin registration path of pkg/adaptation:
 //
 //	synclock (C08)  R goroutines create containers inside BlockPluginSync while P real stubs
-//	                register; the API-level log is replayed through the LTS of Model/SyncLock.v
+//	                register, some blocks released twice; the API-level log is replayed through the
+//	                LTS of Model/SyncLock.v (every run in a re-executed copy of this binary)
 //	register (C17)  scripted raw plugins (multiplex + ttrpc spoken directly) for every outcome
 //	                class of the handshake, CheckPluginIndex on a string corpus, the socket
 //	                directory mode under a sweep of umasks (helper subprocess), disabled listener
@@ -30,6 +31,10 @@ func main() {
 	// the umask is process-wide: the sweep runs in a re-executed copy of this binary
 	if len(os.Args) > 1 && os.Args[1] == umaskHelperArg {
 		os.Exit(umaskHelper(os.Args[2:]))
+	}
+	// a runtime that corrupts its sync lock dies with an unrecoverable fatal error: one process per run
+	if len(os.Args) > 1 && os.Args[1] == syncLockHelperArg {
+		os.Exit(syncLockHelper(os.Args[2:]))
 	}
 	hx.Main(map[string]func(*hx.Ctx) error{"synclock": driveSyncLock, "register": driveRegister})
 }
